@@ -564,6 +564,28 @@ def _sxgfetch_pipeline(pl, sd, fix, info, cid):
              "stderr": (se + se2 + so2[-200:]).decode("latin1")[-400:]}]
 
 
+def _manifest_pipeline(pl, sd, fix, info, cid):
+    """gen-bundle -dir -manifestURL: b1 carries the URL in its manifest section, b2 (no such section) is refused."""
+    p0 = pl[0]["p"]
+    d = os.path.join(sd, "site")
+    names = NAMES[p0["names"]]
+    for n in names:
+        fp = os.path.join(d, n)
+        os.makedirs(os.path.dirname(fp), exist_ok=True)
+        open(fp, "wb").write(("content of " + n).encode())
+    base = "https://example.com/"
+    mf = {"sameorigin": base + "manifest.webmanifest", "query": base + "app/manifest.json?v=2&lang=en"}[p0["manifest"]]
+    out = os.path.join(sd, "m.wbn")
+    args = ["-dir", d, "-baseURL", base, "-version", p0["ver"], "-manifestURL", mf, "-o", out]
+    if p0["ver"] == "b1":
+        args += ["-primaryURL", base + names[0]]
+    rc, so, se = run("gen-bundle", args, sd)
+    # a refused invocation may leave an (empty or partial) output file behind; what counts is the exit status
+    rc2, so2, se2 = run("dump-bundle", ["-i", out], sd) if rc == 0 else (-1, b"", b"")
+    return [{"case": cid, "kind": "manifestcli", "ver": p0["ver"], "manifest": b(mf), "nfiles": len(names), "file": list(read(out)) if rc == 0 else [], "gen_exit": rc, "dump_exit": rc2,
+             "stderr": (se + se2).decode("latin1")[-300:]}]
+
+
 def _har_pipeline(pl, sd, fix, info, cid):
     import base64
     p1 = pl[0]["p"]
@@ -576,6 +598,8 @@ def _har_pipeline(pl, sd, fix, info, cid):
         ("GET", "https://example.com/", 200, [], [("Content-Type", "text/html")], b"<p>dup</p>", None),
         ("GET", "https://example.com/missing", 404, [], [("Content-Type", "text/plain"), ("Strict-Transport-Security", "max-age=1")], b"nope", None),
     ]
+    if p1.get("har") == "statuses":
+        ents = [("GET", "https://example.com/s%d" % st, st, [], [("Content-Type", "text/plain")], ("status %d" % st).encode(), None) for st in (200, 0, 99, 100, 999, 1000, 599, -1)]
     har = {"log": {"version": "1.2", "creator": {"name": "verif", "version": "1"}, "entries": []}}
     entries = []
     for m, u, st, rq, rs, body, enc in ents:
@@ -590,7 +614,7 @@ def _har_pipeline(pl, sd, fix, info, cid):
     out = os.path.join(sd, "har.wbn")
     args = ["-har", hp, "-version", p1["ver"], "-o", out]
     if p1["ver"] == "b1":
-        args += ["-primaryURL", "https://example.com/"]
+        args += ["-primaryURL", ents[0][1]]
     rc, so, se = run("gen-bundle", args, sd)
     rc2, so2, se2 = run("dump-bundle", ["-i", out], sd)
     return [{"case": cid, "kind": "harcli", "ver": p1["ver"], "entries": entries, "file": list(read(out)), "gen_exit": rc, "dump_exit": rc2, "stderr": (se + se2).decode("latin1")[-300:]}]
@@ -943,7 +967,9 @@ def check_c20(tier):
                 continue
         sd = vlib.fresh(os.path.join(scratch, "p%d" % i))
         cid = "p%d" % i
-        if tool == "gen-bundle -dir":
+        if tool == "gen-bundle -dir" and "manifest" in pl[0]["p"]:
+            events += _manifest_pipeline(pl, sd, fix, info, cid)
+        elif tool == "gen-bundle -dir":
             events += _dir_pipeline(pl, sd, fix, info, cid)
         elif tool == "gen-bundle -URLList":
             events += _urllist_pipeline(pl, sd, fix, info, cid)
